@@ -17,6 +17,8 @@ def rangeText (p : PkgInfo) : Text := match p.commitHash with | some h => h | no
 
 /-- `version_text_range`: the range narrowed to that text inside the token (byte offsets and byte column) -/
 def locateBytes (content : Text) (p : PkgInfo) : Option PkgInfo :=
+  if !Pos.onOneLine content p.column p.startOffset p.endOffset then none    -- a value written over several lines
+  else
   match slice content p.startOffset p.endOffset with
   | none => none                              -- `content.get(a..b)`: out of range or inside a character
   | some token =>
